@@ -34,9 +34,9 @@ func DefaultGen() GenCfg {
 }
 
 var comPool = []string{"CHF", "USD", "EUR", "AAPL", "BTC", "GLD", "X1", "Ærø"}
-var segPool = []string{"Bank", "Cash", "Broker", "Checking", "Savings", "US", "CH", "Food", "Rent", "Tax", "Salary", "Misc", "A1", "B2", "Übrig", "日本"}
+var segPool = []string{"Bank", "Cash", "Broker", "Checking", "Savings", "US", "CH", "Food", "Rent", "Tax", "Salary", "Misc", "A1", "B2", "bank", "k2", "Übrig", "日本"}
 var roots = []string{"Assets", "Liabilities", "Equity", "Income", "Expenses"}
-var descPool = []string{"Groceries", "Salary", "Rent", "Transfer", "Buy", "Sell", "Fee", "Dividend", "Tax", "Gift", "Coffee & cake", "Zürich trip", "x", ""}
+var descPool = []string{"Groceries", "Salary", "Rent", "Transfer", "Buy", "Sell", "Fee", "Dividend", "Tax", "Gift", "Coffee & cake", "Zürich trip", " Padded", "Trailing ", "two  spaces", "\n  Dinner on the next line", "x", ""}
 
 var anchors = []Day{D(2019, 12, 20), D(2020, 2, 20), D(2021, 6, 25), D(2022, 12, 28), D(2023, 9, 30), D(2024, 2, 27)}
 
@@ -352,14 +352,34 @@ func gen1(r *simrt.Rand, c GenCfg) *Journal {
 			}
 		}
 		if zero {
+			life := g.coms[r.Intn(len(g.coms))]
+			if isAL(a) && r.P(0.5) && closeDay-2 >= openDay[a] {
+				// the account held something in its first life and was emptied before the close
+				q := Q(r.Range(1, 900)) * 100
+				j.Dirs = append(j.Dirs,
+					Dir{Kind: "txn", Date: closeDay - 2, Desc: "first life", QStyle: r.Intn(3), Bookings: []Booking{{Credit: "Equity:Equity", Debit: a, Qty: q, Com: life}}},
+					Dir{Kind: "txn", Date: closeDay - 1, Desc: "first life ends", QStyle: r.Intn(3), Bookings: []Booking{{Credit: a, Debit: "Equity:Equity", Qty: q, Com: life}}})
+			}
 			j.Dirs = append(j.Dirs, Dir{Kind: "close", Date: closeDay, Account: a})
 			if r.P(c.PReopen) {
 				ro := closeDay + Day(r.Range(1, 5))
 				j.Dirs = append(j.Dirs, Dir{Kind: "open", Date: ro, Account: a})
 				if r.P(0.7) {
-					// the re-opened account is used again
-					j.Dirs = append(j.Dirs, Dir{Kind: "txn", Date: ro + Day(r.Range(0, 20)), Desc: "after reopening", QStyle: r.Intn(3),
-						Bookings: []Booking{{Credit: "Equity:Equity", Debit: a, Qty: Q(r.Range(1, 5000)) * 100, Com: g.coms[r.Intn(len(g.coms))]}}})
+					// the re-opened account is used again, in a commodity it may have held before
+					q := Q(r.Range(1, 5000)) * 100
+					cm := g.coms[r.Intn(len(g.coms))]
+					if r.P(0.7) {
+						cm = life
+					}
+					ud := ro + Day(r.Range(0, 20))
+					j.Dirs = append(j.Dirs, Dir{Kind: "txn", Date: ud, Desc: "after reopening", QStyle: r.Intn(3),
+						Bookings: []Booking{{Credit: "Equity:Equity", Debit: a, Qty: q, Com: cm}}})
+					if r.P(0.4) {
+						// a second life that ends properly: emptied and closed again
+						j.Dirs = append(j.Dirs, Dir{Kind: "txn", Date: ud + Day(r.Range(1, 9)), Desc: "emptied again", QStyle: r.Intn(3),
+							Bookings: []Booking{{Credit: a, Debit: "Equity:Equity", Qty: q, Com: cm}}})
+						j.Dirs = append(j.Dirs, Dir{Kind: "close", Date: ud + Day(r.Range(9, 12)), Account: a})
+					}
 				}
 			}
 		}
@@ -550,7 +570,13 @@ func (l *Layout) Files(j *Journal) map[string]string {
 	out := map[string]string{}
 	for f := 0; f < nf; f++ {
 		s := bufs[f].String()
-		if l.CRLF {
+		crlf := l.CRLF
+		for i := range j.Dirs {
+			if strings.Contains(j.Dirs[i].Desc, "\n") {
+				crlf = false // a line break inside a description would change the description itself
+			}
+		}
+		if crlf {
 			s = strings.ReplaceAll(s, "\n", "\r\n")
 		}
 		out[path.Join(l.Root, l.Names[f])] = s
